@@ -18,7 +18,7 @@ def C07_Statement : Prop :=
   ∀ (cfg : Cfg) (h : List (Op × Ora)) (ora : Ora) (p : Path),
     let st := runSt cfg St.init (h ++ [(Op.crash, ora)])
     let sp := sRunSt cfg Spec.init (h ++ [(Op.crash, ora)])
-    ancestorsAreDirs sp p = true → viewOf st.fs p = sView sp p
+    ancestorsAreDirs sp.l p = true → viewOf st.fs p = sView sp.l p
 
 /-! ### witnesses -/
 
